@@ -83,7 +83,15 @@ Examples:
 		// Set up the ELPS environment.
 		env := lisp.NewEnv(nil)
 		env.Runtime.Reader = parser.NewReader()
-		env.Runtime.Library = &lisp.FSLibrary{FS: os.DirFS(rootDir)}
+		// os.Root, unlike os.DirFS, does not follow symbolic links out of the
+		// root directory.
+		root, rerr := os.OpenRoot(rootDir)
+		if rerr != nil {
+			fmt.Fprintf(os.Stderr, "cannot open root directory: %v\n", rerr)
+			os.Exit(1)
+		}
+		defer root.Close() //nolint:errcheck
+		env.Runtime.Library = &lisp.FSLibrary{FS: root.FS()}
 		env.Runtime.Debugger = dbg
 
 		rc := lisp.InitializeUserEnv(env)
